@@ -645,9 +645,9 @@ void list_output_dspic(AsmContext *asm_context, uint32_t start, uint32_t end)
     {
       fprintf(asm_context->list, "0x%04x: 0x%02x%02x%02x\n",
         (start / 2) + 2,
-        asm_context->memory_read(start + 4),
+        asm_context->memory_read(start + 6),
         asm_context->memory_read(start + 5),
-        asm_context->memory_read(start + 6));
+        asm_context->memory_read(start + 4));
     }
 
     start += count;
